@@ -24,3 +24,87 @@ Proof. intros H. apply decode_fast_eq; cbn; lia. Qed.
 
 Lemma decode_fast64 b : 0 <= b -> decode_fast F64 b = decode F64 b.
 Proof. intros H. apply decode_fast_eq; cbn; lia. Qed.
+
+(* ---- results of rounding to binary32 are 32-bit patterns (used for the angle normalisation in C01) ---- *)
+Lemma encode_canon32_range s m e : 0 <= m <= 2 ^ 24 -> -149 <= e -> 0 <= encode_canon F32 s m e < 2 ^ 32.
+Proof.
+  intros Hm He. unfold encode_canon.
+  change (prec F32) with 24. change (2 ^ (24 - 1)) with 8388608. change (2 ^ 24) with 16777216 in *.
+  change (2 ^ 32) with 4294967296.
+  assert (Hs : sbit F32 s = 0 \/ sbit F32 s = 2147483648) by (destruct s; cbn; auto).
+  assert (Hi : inf_bits F32 s = sbit F32 s + 2139095040) by reflexivity.
+  change (emin F32) with (-149). change (emax_field F32) with 255.
+  destruct (m =? 16777216) eqn:E.
+  - cbn [Z.ltb Z.compare Pos.compare Pos.compare_cont]. 
+    destruct (255 <=? e + 1 - -149 + 1) eqn:G; [lia|]. apply Z.leb_gt in G. lia.
+  - apply Z.eqb_neq in E. destruct (m <? 8388608) eqn:L; [apply Z.ltb_lt in L; lia|]. apply Z.ltb_ge in L.
+    destruct (255 <=? e - -149 + 1) eqn:G; [lia|]. apply Z.leb_gt in G. lia.
+Qed.
+
+Lemma log2_bound m : 0 < m -> m < 2 ^ (Z.log2 m + 1).
+Proof. intros H. pose proof (Z.log2_spec m H). replace (Z.log2 m + 1) with (Z.succ (Z.log2 m)) by lia. lia. Qed.
+
+Lemma rne_dy_pos32_range s m e : 0 < m -> 0 <= rne_dy_pos F32 s m e < 2 ^ 32.
+Proof.
+  intros Hm. unfold rne_dy_pos. change (prec F32) with 24. change (emin F32) with (-149).
+  set (l := Z.log2 m + e). set (e0 := Z.max (-149) (l - 24 + 1)).
+  assert (He0 : -149 <= e0) by (unfold e0; lia).
+  assert (Hl : l - 23 <= e0) by (unfold e0; lia).
+  pose proof (Z.log2_nonneg m) as Hlog. pose proof (log2_bound m Hm) as Hb.
+  destruct (e0 <=? e) eqn:C.
+  - apply Z.leb_le in C. apply encode_canon32_range; [|exact He0].
+    rewrite Z.shiftl_mul_pow2 by lia. split; [apply Z.mul_nonneg_nonneg; [lia|apply Z.pow_nonneg; lia]|].
+    apply Z.lt_le_incl.
+    apply Z.lt_le_trans with (2 ^ (Z.log2 m + 1) * 2 ^ (e - e0)).
+    + apply Z.mul_lt_mono_pos_r; [apply Z.pow_pos_nonneg; lia|exact Hb].
+    + rewrite <- Z.pow_add_r by lia. apply Z.pow_le_mono_r; [lia|]. unfold l in Hl. lia.
+  - apply Z.leb_gt in C.
+    assert (Hq : 0 <= Z.shiftr m (e0 - e) < 2 ^ 24).
+    { rewrite Z.shiftr_div_pow2 by lia. split; [apply Z.div_pos; [lia|apply Z.pow_pos_nonneg; lia]|].
+      apply Z.div_lt_upper_bound; [apply Z.pow_pos_nonneg; lia|].
+      rewrite <- Z.pow_add_r by lia.
+      apply Z.lt_le_trans with (2 ^ (Z.log2 m + 1)); [exact Hb|].
+      apply Z.pow_le_mono_r; [lia|]. unfold l in Hl. lia. }
+    apply encode_canon32_range; [|exact He0].
+    destruct (_ || _); lia.
+Qed.
+
+Lemma rne_dy32_range s m e : 0 <= m -> 0 <= rne_dy F32 s m e < 2 ^ 32.
+Proof.
+  intros Hm. unfold rne_dy. destruct (m =? 0) eqn:E.
+  - unfold zero_bits. destruct s; cbn; lia.
+  - apply Z.eqb_neq in E. apply rne_dy_pos32_range. lia.
+Qed.
+
+Lemma decode_fast_fin f x s m e : 1 <= prec f -> decode_fast f x = FFin s m e -> 0 <= m.
+Proof.
+  intros Hp. unfold decode_fast.
+  assert (Hma : 0 <= Z.land x (Z.ones (prec f - 1))).
+  { apply Z.land_nonneg. right. rewrite Z.ones_equiv. pose proof (Z.pow_pos_nonneg 2 (prec f - 1)). lia. }
+  destruct (_ =? Z.ones (ebits f)); [destruct (_ =? 0); discriminate|].
+  destruct (_ =? 0).
+  - intros [= _ <- _]. exact Hma.
+  - intros [= _ <- _]. unfold pow2. rewrite Z.shiftl_1_l. pose proof (Z.pow_nonneg 2 (prec f - 1)). lia.
+Qed.
+
+Lemma f64_to_f32_range x : 0 <= f64_to_f32 x < 2 ^ 32.
+Proof.
+  unfold f64_to_f32, convert. destruct (decode_fast F64 x) as [|s|s m e] eqn:D.
+  - change (prec F32 <? prec F64) with true. cbv iota.
+    change (prec F64 - prec F32) with 29.
+    assert (Hp : 0 <= Z.shiftr (mant_of F64 x) 29 < 2 ^ 23).
+    { unfold mant_of. change (prec F64 - 1) with 52. rewrite Z.shiftr_div_pow2 by lia.
+      pose proof (Z.mod_pos_bound x (2 ^ 52) ltac:(lia)) as B.
+      split; [apply Z.div_pos; lia|]. apply Z.div_lt_upper_bound; [lia|]. change (2 ^ 29 * 2 ^ 23) with (2 ^ 52). lia. }
+    unfold quiet. change (prec F32 - 2) with 22. change (emax_field F32 * 2 ^ (prec F32 - 1)) with 2139095040.
+    set (v := sbit F32 (sign_of F64 x) + 2139095040 + Z.shiftr (mant_of F64 x) 29).
+    assert (Hv : 0 <= v < 2 ^ 32).
+    { unfold v. destruct (sign_of F64 x); cbn [sbit]; change (2 ^ (width F32 - 1)) with 2147483648; change (2 ^ 23) with 8388608 in Hp; change (2 ^ 32) with 4294967296; lia. }
+    split; [apply Z.lor_nonneg; split; lia|].
+    destruct (Z.eq_dec v 0) as [->|Hnz]; [cbn; lia|].
+    apply Z.log2_lt_pow2; [|rewrite Z.log2_lor by lia; apply Z.max_lub_lt; [apply Z.log2_lt_pow2; lia|cbn; lia]].
+    assert (0 <= Z.lor v (2 ^ 22)) by (apply Z.lor_nonneg; split; lia).
+    assert (Z.lor v (2 ^ 22) <> 0) by (intros H0; apply Z.lor_eq_0_iff in H0 as [? ?]; lia). lia.
+  - unfold inf_bits. destruct s; cbn; lia.
+  - apply rne_dy32_range. apply (decode_fast_fin F64 x s m e); [cbn; lia|exact D].
+Qed.
